@@ -35,7 +35,7 @@ RFC_EXAMPLES = [u'g:h', u'g', u'./g', u'g/', u'/g', u'//g', u'?y', u'g?y', u'#s'
 def gen_ref(rng):
 	kind = rng.randrange(8)
 	segs = u'/'.join(rng.choice(RSEGS) for _ in range(rng.randrange(1, 6)))
-	q = rng.choice([u'', u'', u'?y', u'?y=1&z', u'?t=12:30', u'?u=http://o/i', u'?a/b', u'?a@b', u'?a%20b=c%26d', u'?%41=%7e'])
+	q = rng.choice([u'', u'', u'?y', u'?y=1&z', u'?t=12:30', u'?u=http://o/i', u'?a/b', u'?a@b', u'?a%20b=c%26d', u'?%41=%7e', u'?k=%C3%9C', u'?%E2%82%AC=%C3%9F', u'?x=%C2%80'])
 	f = rng.choice([u'', u'', u'#s', u'#a:b', u'#x/y', u'#//z', u'#a%20b', u'#%41', u'#%C3%A9', u'#a%2Fb?c', u'#%25'])
 	if kind == 0:
 		return rng.choice([u'http', u'https', u'ftp', u'x']) + u'://' + rng.choice([u'b', u'B.c', u'u@b:81']) + u'/' + segs + q + f
@@ -117,6 +117,27 @@ def oracle(case):
 	try:
 		exp = expected(base, ref)
 	except Exception:
+		# the expectation needs the library's own parser for the RFC result; when that refuses, at least this much is
+		# independent: a reference whose query is percent-encoded UTF-8 text without control characters is a valid reference
+		import re as _r
+		from urllib.parse import unquote_to_bytes as _u
+		rs, ra, rp, rq, rf = rfc3986.split(ref)
+		if rq and _r.match(u"^[A-Za-z0-9._~!$&'()*+,;=:@/?%-]*$", rq) and not _r.search(u'%(?![0-9A-Fa-f]{2})', rq):
+			raw = _u(rq)
+			try:
+				raw.decode('utf-8')
+				plain = not any(b < 0x20 or b == 0x7f for b in raw)
+			except UnicodeDecodeError:
+				plain = False
+			if plain and not degenerate(ref) and not slash_before_scheme_mark(ref):
+				try:
+					impl_join(base, ref.replace(u'?' + rq, u'', 1))      # the same reference without its query is accepted
+				except Exception:
+					return None
+				try:
+					impl_join(base, ref)
+				except Exception as e:
+					return {'what': 'join raised %s for a reference whose query %r is percent-encoded UTF-8 text' % (exc_name(e), rq), 'base': base, 'ref': ref, 'finding': None}
 		return None
 	try:
 		got = impl_join(base, ref)
